@@ -299,26 +299,21 @@ def _d_factories_and_options(chk):
     STP = "hiten.algorithms.continuation.stepping"
     SMIN, SMAX, POL = sp.Symbol("STEP_MIN"), sp.Symbol("STEP_MAX"), sp.Symbol("POLICY")
     for maker, clsname in (("make_natural_stepper", "_NaturalParameterStep"), ("make_secant_stepper", "_SecantStep")):
-        got = {}
-
-        def ctor(ip_, a, k, got=got):
-            got.update(k)
-            got["args"] = a
-            return SymObj(None, dict(k), "stepper")
-
+        # the real stepper classes are instantiated by the interpreted factory; what counts is what the stepper ends up holding
         support = SymObj(None, {"seed": lambda t: None, "get_tangent": sp.Symbol("GET_TANGENT")}, "support")
-        ip = Interp(overrides={clsname: ctor}, decide=lambda c: False)
-        ip.isinstance_hook = lambda v, c: True
+        ip = Interp(decide=lambda c: False)
+        ip.isinstance_hook = lambda v, c: True if (isinstance(c, ClassRef) and "Support" in c.node.name) else None
         fac = ip.call_function(STP, maker, [])
         try:
-            ip.apply(fac, [lambda *a: to_obj_array([sp.Symbol("r0")]), support, to_obj_array([sp.Symbol("seed0")]), to_obj_array([sp.Symbol("st0")]),
-                           lambda *a: to_obj_array([sp.Symbol("p0")]), SMIN, SMAX, POL], {})
+            st = ip.apply(fac, [lambda *a: to_obj_array([sp.Symbol("r0")]), support, to_obj_array([sp.Symbol("seed0")]), to_obj_array([sp.Symbol("st0")]),
+                                lambda *a: to_obj_array([sp.Symbol("p0")]), SMIN, SMAX, POL], {})
         except OutsideFragment as exc:
             raise AnalysisError(f"{maker} factory outside fragment: {exc}")
-        ok = got.get("step_min") == SMIN and got.get("step_max") == SMAX and got.get("shrink_policy") == POL
+        held = getattr(st, "attrs", {})
+        ok = held.get("_step_min") == SMIN and held.get("_step_max") == SMAX and held.get("_shrink_policy") == POL
         chk.check(ok, "C13.d", f"{STP}::{maker}[bounds]",
-                  f"{maker} builds {clsname} with step_min={got.get('step_min')}, step_max={got.get('step_max')}, shrink_policy={got.get('shrink_policy')}: the configured "
-                  "bounds / policy do not reach the stepper (its defaults apply instead)", sample=f"{clsname}(step_min=step_min, step_max=step_max, shrink_policy=shrink_policy)")
+                  f"the stepper built by {maker} holds step_min={held.get('_step_min')}, step_max={held.get('_step_max')}, shrink_policy={held.get('_shrink_policy')}: the configured "
+                  "bounds / policy do not reach the stepper (its defaults apply instead)", sample=f"{clsname}: _step_min, _step_max, _shrink_policy are the configured ones")
     chk.count("functions partially evaluated", 2)
     omod, ocls = ri.find_def("hiten.algorithms.continuation.options", "ContinuationOptions")
     for label, target, want in (("(hi, lo)", [5, 2], [[2], [5]]), ("(lo, hi)", [2, 5], [[2], [5]]),
